@@ -51,7 +51,13 @@ var suffixes = []string{"", "/", "/log", "/abc", "/author", ".html", "aa", "-", 
 // the interceptor table offered to routers that use interceptors: rule -> id
 var icptTable = []kv{{"digit", "1"}, {"word", "2"}, {"any", "0"}, {"even", "6"}, {"starta", "3"}, {"all", "4"}, {"none", "5"}, {`\d+`, "1"}}
 
+// tokens with a brace inside the name: accepted by CheckSyntax, but longestPrefix cuts inside them
+var nestedTokens = []string{"{a{b}", "{a{}}", "{abc{d}", "{abc{ee}", "{{a}", "{a{b}x", "{x{y:\\d+}"}
+
 func (g *G) token(useIc bool) string {
+	if g.chance(0.02) {
+		return g.pick(nestedTokens)
+	}
 	switch k := g.intn(10); {
 	case k < 4:
 		return g.pick(namedTokens)
@@ -149,7 +155,7 @@ func (g *G) mutatePattern(p string, useIc bool) string {
 	return g.pattern(useIc)
 }
 
-var malformed = []string{"", "{}", "/{}", "/{:\\d+}", "/{a}{b}", "/{id}/{id}", "/{id}/{-id}", "/{id:[0-9}", "/{id:(}", "/{id:*}", "/}{", "/{", "/}", "/{a", "/a}", "/{a:}", "/{a}:", "/{-}", "/{-:x}", "/{id-x:\\d+}", "/{a}}/{b}", "/{{a}", "/:{a}", "{a}{b}{c}", "/{a:\\d+}{b}"}
+var malformed = []string{"/{a{b}x", "/{a{}}y", "{abc{d}/x", "{abc{ee}/y", "", "{}", "/{}", "/{:\\d+}", "/{a}{b}", "/{id}/{id}", "/{id}/{-id}", "/{id:[0-9}", "/{id:(}", "/{id:*}", "/}{", "/{", "/}", "/{a", "/a}", "/{a:}", "/{a}:", "/{-}", "/{-:x}", "/{id-x:\\d+}", "/{a}}/{b}", "/{{a}", "/:{a}", "{a}{b}{c}", "/{a:\\d+}{b}"}
 
 // ---- paths ---------------------------------------------------------------------------------
 
